@@ -63,6 +63,10 @@ func parseLoadFile94(reader io.Reader, coresize Address) (WarriorData, error) {
 		if len(fields) != 5 {
 			// empty line
 			if len(fields) == 0 {
+				// a line that holds nothing but commas is not blank
+				if len(strings.Fields(lower)) != 0 {
+					return WarriorData{}, fmt.Errorf("line %d: no instruction", lineNum)
+				}
 				continue
 			}
 
@@ -320,6 +324,10 @@ func parseLoadFile88(reader io.Reader, coresize Address) (WarriorData, error) {
 		if len(fields) != 5 {
 			// empty line
 			if len(fields) == 0 {
+				// a line that holds nothing but commas is not blank
+				if len(strings.Fields(lower)) != 0 {
+					return WarriorData{}, fmt.Errorf("line %d: no instruction", lineNum)
+				}
 				continue
 			}
 
